@@ -191,6 +191,7 @@ func runC08(c *Ctx) {
 	ruleSocketCloseOwner(c)
 	ruleLogoutOnceUnderLock(c)
 	ruleNoPartialLine(c) // a disconnect in the middle of a command line executes nothing: the fragment is never dispatched
+	ruleDrainFailureCloses(c) // a timeout or connection error while the rest of a message or chunk is discarded is "given up": the connection is closed, the unread octets are not executed
 	// the serving goroutine receives once per recipient occurrence before it goes back to the socket: a channel that is
 	// not filled to capacity blocks it for good — no disconnect, QUIT or timeout is noticed, Close and Logout never run
 	c.R.Rule("R-status-fill-shape", "E1", "fillRemaining fills every recipient channel to capacity (one status per occurrence), so the command loop's receives cannot block forever and the connection can still end", 2)
